@@ -53,6 +53,11 @@ type c07Cfg struct {
 	Setters bool `json:"setters,omitempty"`
 	// Unix: the server is reached over a UNIX domain socket ("unix://path" as host) with go-mail's own dialer
 	Unix bool `json:"unix,omitempty"`
+	// Quick: the entry point is mail.QuickSend (opportunistic TLS, auto-discovered authentication, its own Client and
+	// dialer) against a server on a loopback TCP port. QuickSend trusts the system roots only, so the handshake with the
+	// harness server can only fail: what is judged is that nothing follows a failed handshake and that the password
+	// never travels over the unencrypted connection.
+	Quick bool `json:"quick,omitempty"`
 }
 
 // c07FBMu serialises the fallback-port cases of one process (they listen on the fixed port 25 of a
@@ -120,6 +125,54 @@ func c07Exec(r *vf.Run, cfg c07Cfg) []finding {
 	}
 	if cfg.STReply == 4 {
 		conn.InjectAfterStartTLS = "250-" + host + " injected\r\n250 AUTH PLAIN LOGIN\r\n"
+	}
+	if cfg.Quick {
+		qb, err := hx.ServeTCP(conn)
+		if err != nil {
+			r.HarnessError("C07 listen: %v", err)
+			return nil
+		}
+		defer qb.Stop()
+		var qerr error
+		pan, pw := vf.Guard(func() {
+			_, qerr = mail.QuickSend(fmt.Sprintf("127.0.0.1:%d", qb.Port), mail.NewAuthData(c07User, c07Pass), "sender@snd.example", []string{"rcpt@rcp.example"}, "quick", []byte("quick body\r\n"))
+		})
+		if pan {
+			return []finding{{"panic/" + vf.PanicSite(pw), firstLine(pw)}}
+		}
+		qb.Stop()
+		clear := conn.ClientBytes
+		if conn.TLSStartAt >= 0 {
+			clear = conn.ClientBytes[:conn.TLSStartAt]
+		}
+		b64 := base64.StdEncoding.EncodeToString
+		for name, nd := range map[string]string{"the raw password": c07Pass, "base64(password)": b64([]byte(c07Pass)), "the PLAIN response": b64([]byte("\x00" + c07User + "\x00" + c07Pass))} {
+			if bytes.Contains(clear, []byte(nd)) {
+				add("password-in-cleartext/auth=AUTODISCOVER/entry=QuickSend", "%s travelled in clear (QuickSend, STARTTLS advertised=%v, advertised AUTH: %s)", name, cfg.Adv, c07AuthLists[cfg.AuthList])
+			}
+		}
+		for _, ln := range strings.Split(string(clear), "\r\n") {
+			u := strings.ToUpper(ln)
+			if strings.HasPrefix(u, "AUTH PLAIN") || strings.HasPrefix(u, "AUTH LOGIN") {
+				add("autodiscover-picked-password-mechanism-in-clear/entry=QuickSend", "QuickSend sent %q on an unencrypted connection (advertised: %s)", clipS(ln, 30), c07AuthLists[cfg.AuthList])
+			}
+			if cfg.Adv && conn.TLSStartAt >= 0 && conn.ServerTLS == nil && (strings.HasPrefix(u, "MAIL ") || strings.HasPrefix(u, "AUTH ")) {
+				add("command-after-failed-handshake/entry=QuickSend", "QuickSend went on with %q in clear after the TLS handshake had failed", clipS(ln, 30))
+			}
+		}
+		if len(conn.PostTLSPlain) > 0 {
+			add("plaintext-after-tls-start/entry=QuickSend", "after the switch to TLS the client wrote non-TLS bytes %q", clipS(string(conn.PostTLSPlain[0]), 60))
+		}
+		if qerr == nil && cfg.Adv {
+			add("quicksend-succeeded-with-untrusted-certificate", "QuickSend returned nil although the server's certificate is not trusted by the system roots")
+		}
+		if len(conn.ClientBytes) > 0 {
+			r.Outcome("quicksend-dialogue")
+		}
+		if sess.Authed {
+			r.Outcome("quicksend-authenticated")
+		}
+		return out
 	}
 	opts := []mail.Option{mail.WithHELO("client.example.test"), mail.WithTLSConfig(hx.ClientTLS(host))}
 	var post []func(*mail.Client)
@@ -463,7 +516,7 @@ func init() {
 	vf.Register(&vf.Check{
 		ID: "C07", Title: "TLS policy and credential confidentiality hold against any server",
 		Run: func(r *vf.Run) {
-			r.SetRule("the full product TLS policy {mandatory, opportunistic, none, implicit (go-mail's own TLS dialer over a loopback bridge)} × 13 auth types × (mandatory/opportunistic) WithTLSPortPolicy with the primary port refusing (also with the policy changed afterwards through SetTLSPolicy, which leaves the fallback port in place) × (implicit TLS) a Client that first dialled without TLS and was then switched over with SetSSL(true) × every policy with the server behind a UNIX domain socket (unix:// host, go-mail's own dialer) × (implicit TLS) a plain connection supplied by the caller's own dial function (password clauses only) × (implicit TLS) fallback enabled with the primary port refusing and the fallback port 25 served by a plain-text or an implicit-TLS server × configuration through options or through the Client's setters (after construction with the opposite settings) × host name {mail.example.test, five remote names that resemble loopback names (localhost.example.test, 127.0.0.1.example.test, …), localhost, 127.0.0.1} × server behaviour {STARTTLS advertised or not; reply 220 / 454 / 501 / garbage / 220 followed by injected plaintext; handshake ok / wrong-name certificate / untrusted certificate / garbage; 7 advertised AUTH lists}, each executed with real crypto/tls handshakes where reached; oracle on the byte tap of everything the client wrote before/after the switch to TLS; distinct by configuration")
+			r.SetRule("the full product TLS policy {mandatory, opportunistic, none, implicit (go-mail's own TLS dialer over a loopback bridge)} × 13 auth types × (mandatory/opportunistic) WithTLSPortPolicy with the primary port refusing (also with the policy changed afterwards through SetTLSPolicy, which leaves the fallback port in place) × (implicit TLS) a Client that first dialled without TLS and was then switched over with SetSSL(true) × the QuickSend entry point (own Client, opportunistic TLS, auto-discovery) against plain and STARTTLS servers × every policy with the server behind a UNIX domain socket (unix:// host, go-mail's own dialer) × (implicit TLS) a plain connection supplied by the caller's own dial function (password clauses only) × (implicit TLS) fallback enabled with the primary port refusing and the fallback port 25 served by a plain-text or an implicit-TLS server × configuration through options or through the Client's setters (after construction with the opposite settings) × host name {mail.example.test, five remote names that resemble loopback names (localhost.example.test, 127.0.0.1.example.test, …), localhost, 127.0.0.1} × server behaviour {STARTTLS advertised or not; reply 220 / 454 / 501 / garbage / 220 followed by injected plaintext; handshake ok / wrong-name certificate / untrusted certificate / garbage; 7 advertised AUTH lists}, each executed with real crypto/tls handshakes where reached; oracle on the byte tap of everything the client wrote before/after the switch to TLS; distinct by configuration")
 			r.Assume("a completed server-side handshake implies the client accepted the certificate (TLS 1.2/1.3 semantics)", "implicit TLS is only exercised against loopback addresses (go-mail's dialer needs a real socket; the fallback cases listen on port 25 of 127.x.y.z)")
 			var cfgs []c07Cfg
 			for pol := 0; pol < 4; pol++ {
@@ -551,6 +604,11 @@ func init() {
 					}
 				}
 			}
+			for al := range c07AuthLists {
+				for _, adv := range []bool{false, true} {
+					cfgs = append(cfgs, c07Cfg{Policy: 1, Auth: 11, Local: true, HostIdx: 1, Adv: adv, AuthList: al, Quick: true})
+				}
+			}
 			r.Extra("configurations", len(cfgs))
 			r.Parallel(len(cfgs), "C07 configurations", func(i int) {
 				cfg := cfgs[i]
@@ -578,7 +636,7 @@ func init() {
 					})
 				}
 			})
-			r.Reached("fallback-connection-used/fb=1", "fallback-connection-used/fb=2", "fallback-connection-used/fb=3", "fallback-connection-used/fb=4", "fallback-connection-used/fb=5", "unix-socket-used/mandatory", "unix-socket-used/opportunistic", "unix-socket-used/none", "unix-socket-used/implicit", "configured-through-setters", "second-dial-judged",
+			r.Reached("fallback-connection-used/fb=1", "fallback-connection-used/fb=2", "fallback-connection-used/fb=3", "fallback-connection-used/fb=4", "fallback-connection-used/fb=5", "unix-socket-used/mandatory", "unix-socket-used/opportunistic", "unix-socket-used/none", "unix-socket-used/implicit", "quicksend-dialogue", "quicksend-authenticated", "configured-through-setters", "second-dial-judged",
 				"tls-established/mandatory", "tls-established/opportunistic", "tls-established/implicit", "authenticated/PLAIN", "authenticated/SCRAM-SHA-256-PLUS")
 		},
 		Replay: func(r *vf.Run, kase json.RawMessage) {
